@@ -24,6 +24,7 @@ import Vita.C09.LemmasRead
 import Vita.C09.LemmasSniff
 import Vita.C09.LemmasTable
 import Vita.C09.LemmasXrff
+import Vita.C09.LemmasCat
 
 namespace Vita.C09
 
@@ -132,6 +133,31 @@ theorem class_name_left_inverse (m : ClassMap) (h : ClassInv m) (l : Str) :
 theorem class_name_of_lookup (m : ClassMap) (h : ClassInv m) (l : Str) (i : Nat) (hl : lookup m l = some i) :
     className m i = l :=
   className_of_mem m h l i (lookup_some_mem m l i hl)
+
+/-- **label_trimmed.**  Class labels are compared after trimming: two output cells that differ only
+    in surrounding white space (`Iris-setosa` and ` Iris-setosa `, quoted or not) are the same class –
+    the second one gets the id of the first and adds nothing to the class map – and the name stored
+    for the id is the trimmed text. -/
+theorem label_trimmed (o : NumOracle F) (m : ClassMap) (hinv : ClassInv m) (c0 : Col) (a b : Str) (add : Bool)
+    (hd : c0.dom ≠ .void) (ha : isNumber o a = false) (hab : trim a = trim b) :
+    ∃ (id : Nat) (m' : ClassMap) (c' : Col), outputOf o m c0 a add = .ok (.int id, m', c') ∧ ClassInv m' ∧
+      lookup m' (trim a) = some id ∧ className m' id = trim a ∧ c'.dom = c0.dom ∧
+      ∃ c'', outputOf o m' c' b add = .ok (.int id, m', c'') := by
+  have hb : isNumber o b = false := by
+    rw [← isNumber_trim, ← hab, isNumber_trim]; exact ha
+  have hinv' := encode_inv m hinv (trim a)
+  have hlk : lookup (encode m (trim a)).2 (trim a) = some (encode m (trim a)).1 :=
+    lookup_of_mem _ hinv' _ _ (encode_mem m (trim a))
+  have hdom : (addState add c0 (trim a)).dom = c0.dom := by
+    unfold addState; split <;> rfl
+  refine ⟨(encode m (trim a)).1, (encode m (trim a)).2, addState add c0 (trim a), ?_, hinv', hlk,
+    className_of_mem _ hinv' _ _ (encode_mem m (trim a)), hdom, addState add (addState add c0 (trim a)) (trim b), ?_⟩
+  · simp [outputOf, hd, ha, pure, Except.pure]
+  · have he : encode (encode m (trim a)).2 (trim b) = ((encode m (trim a)).1, (encode m (trim a)).2) := by
+      rw [← hab]
+      unfold encode at hlk ⊢
+      simp only [hlk]
+    simp [outputOf, hdom, hd, hb, he, pure, Except.pure]
 
 /-! ## 3. rows of a well-formed table -/
 
@@ -336,6 +362,46 @@ theorem rows_faithful_xrff (cfg : Cfg) (o : NumOracle F) (filter : List Str → 
     rw [← hcl] at h2
     exact ⟨id, h1, lookup_of_mem _ hinv _ _ h2, className_of_mem _ hinv _ _ h2⟩
 
+/-- **xrff_types.**  The attribute types `read_xrff` handles, for **every** type string: `integer` is
+    read with `std::stoi`, `numeric` / `real` with `std::stod`, `nominal` / `string` as text; anything
+    else (`date`, `relational`, a missing or differently spelled type) gives the column no domain, and
+    such a column is left out of the examples (`inputVals` skips it, the other inputs keep their
+    order: `rows_faithful_xrff`).  A `nominal` / `string` class attribute is numeric (class ids). -/
+theorem xrff_types (t : Str) (a : XAttr) :
+    (t = "integer".toList → fromWeka t = .int) ∧
+    (t = "numeric".toList ∨ t = "real".toList → fromWeka t = .dbl) ∧
+    (t = "nominal".toList ∨ t = "string".toList → fromWeka t = .str) ∧
+    (t ∉ ["integer".toList, "numeric".toList, "real".toList, "nominal".toList, "string".toList] → fromWeka t = .void) ∧
+    ((a.type = "nominal".toList ∨ a.type = "string".toList) → (colOfOut a).dom = .dbl ∧ (colOfOut a).states = []) ∧
+    (colOf a).dom = fromWeka a.type ∧ (colOfOut a).name = a.name ∧ (colOf a).name = a.name := by
+  refine ⟨?_, ?_, ?_, ?_, ?_, rfl, rfl, rfl⟩
+  · intro h; subst h; decide
+  · intro h; rcases h with h | h <;> subst h <;> decide
+  · intro h; rcases h with h | h <;> subst h <;> decide
+  · intro h
+    simp only [List.mem_cons, List.mem_nil_iff, or_false, not_or] at h
+    obtain ⟨h1, h2, h3, h4, h5⟩ := h
+    unfold fromWeka
+    have n23 : ¬ (decide (t = "numeric".toList) || decide (t = "real".toList)) = true := by
+      intro hc
+      rcases Bool.or_eq_true_iff.1 hc with h | h
+      · exact h2 (of_decide_eq_true h)
+      · exact h3 (of_decide_eq_true h)
+    have n45 : ¬ (decide (t = "nominal".toList) || decide (t = "string".toList)) = true := by
+      intro hc
+      rcases Bool.or_eq_true_iff.1 hc with h | h
+      · exact h4 (of_decide_eq_true h)
+      · exact h5 (of_decide_eq_true h)
+    rw [if_neg h1, if_neg n23, if_neg n45]
+  · intro h
+    have hb : (decide (a.type = "nominal".toList) || decide (a.type = "string".toList)) = true := by
+      rcases h with h | h <;> rw [h] <;> decide
+    have hw : fromWeka "numeric".toList = .dbl := by decide
+    have hne : ¬ "numeric".toList = "nominal".toList := by decide
+    constructor
+    · unfold colOfOut; rw [if_pos hb]; exact hw
+    · unfold colOfOut; rw [if_pos hb]; simp only []; rw [if_neg hne]
+
 /-- **header_names.**  With a header the column names are the (trimmed) header cells, output
     column first; without one they are empty – this is the `skel` clause of `rows_faithful`: -/
 theorem header_names (outIdx : Option Nat) (h : List Str) (n : Nat) :
@@ -379,7 +445,7 @@ theorem hook_absent (cfg : Cfg) (o : NumOracle F) (d : Char) (eol : Str) (t : Ta
   | none => simp [hp] at hh
   | some hflag =>
     unfold readCsv resolveDialect
-    simp only [hp, Option.isNone_some, hd0, Bool.false_or, decide_false, Bool.false_eq_true, if_false,
+    simp only [Option.isNone_some, hd0, Bool.false_or, decide_false, Bool.false_eq_true, if_false,
       Option.getD_some]
     rw [hd, h1, h2, ← hl, List.filterMap_some]
     rfl
@@ -408,7 +474,7 @@ theorem filter_absent (cfg : Cfg) (o : NumOracle F) (d : Char) (eol : Str) (t : 
     | nil => rfl
     | cons a L ih =>
       simp only [List.filter_cons, List.map_cons, List.filterMap_cons, Hook.ofPred]
-      cases f (fieldsOf p.trimWs p.keepQuotes a) <;> simp [ih, Hook.ofPred]
+      cases f (fieldsOf p.trimWs p.keepQuotes a) <;> simp [ih]
 
 /-- **filter_absent (XRFF).**  For every document and every hook: the hook is handed the values of
     each `<instance>` in the order of the `<value>` elements – *before* the class value is moved to
@@ -517,6 +583,135 @@ theorem old_var_out_of_range :
   refine ⟨_, rfl, ⟨['c'], 1, some 0⟩, ?_, ?_⟩
   · simp [setupVarsGo, varName, categories, categoriesGo]
   · simp [evalVar, fetchVar, throw, throwThe, MonadExceptOf.throw]
+
+/-! ## 4b. categories, state constants, types -/
+
+/-- **category_valid.**  For every list of columns and both typings the `category_set` built from it
+    passes `category_set::is_valid`: one entry per column carrying the column's domain; the category
+    is undefined exactly for the columns without a domain; equal categories imply equal domains. -/
+theorem category_valid (strong : Bool) (cols : List Col) :
+    (categories strong cols).map (·.2) = cols.map (·.dom) ∧
+    (∀ x ∈ categories strong cols, (x.1 = none ↔ x.2 = .void)) ∧
+    (∀ x ∈ categories strong cols, ∀ y ∈ categories strong cols, x.1 = y.1 → x.1 ≠ none → x.2 = y.2) := by
+  obtain ⟨h1, n, h2⟩ := categories_spec strong cols
+  exact ⟨h1, h2.void, h2.dom⟩
+
+/-- **category_typing.**  Strong typing: two different columns never share a category.  Weak typing:
+    the numeric columns of equal domain share one.  Both: a column of domain `d_string` has a
+    category of its own. -/
+theorem category_typing (strong : Bool) (cols : List Col) :
+    (strong = true → (categories strong cols).Pairwise (fun x y => x.1 = y.1 → x.1 = none)) ∧
+    (strong = false → ∀ x ∈ categories strong cols, ∀ y ∈ categories strong cols,
+        x.2 = y.2 → x.2 ≠ .str → x.1 = y.1) ∧
+    (categories strong cols).Pairwise (fun x y => (x.2 = .str ∨ y.2 = .str) → x.1 ≠ y.1) := by
+  obtain ⟨_, n, h⟩ := categories_spec strong cols
+  refine ⟨h.strongP, h.weak, ?_⟩
+  refine List.Pairwise.imp_of_mem ?_ h.strP
+  intro a b ha hb hab hor
+  by_cases has : a.2 = .str <;> by_cases hbs : b.2 = .str
+  · exact hab has hbs
+  · exact h.strNon a ha b hb has hbs
+  · exact fun e => h.strNon b hb a ha hbs has e.symm
+  · rcases hor with h1 | h1
+    · exact absurd h1 has
+    · exact absurd h1 hbs
+
+/-- **terminals_spec.**  For columns whose states sit in `d_string` columns (every column list the two
+    readers build): `setup_terminals` inserts, column by column – for the columns after the output
+    column that have a domain, in their order – the variable of the column (index = its rank among
+    those columns) followed by one constant per state of the column, named by the state between
+    quotes, evaluating to the state, all in the category `category_set` gives the column; and the
+    variables are exactly those of `var_binding`. -/
+theorem terminals_spec (strong : Bool) (cols : List Col) (h2 : 2 ≤ cols.length) (hst : StatesStr cols.tail) :
+    ∃ syms, setupSymbols { guards := true } strong cols = .ok syms ∧
+      syms = ((keptCols cols.tail 1).zipIdx 0).flatMap (fun q =>
+        TermSym.var { name := varName q.1.1 q.1.2, var := q.2,
+                      category := ((categories strong cols).getD q.1.2 (none, .void)).1 } ::
+          q.1.1.states.map (fun s =>
+            TermSym.const (quoteStr s) s ((categories strong cols).getD q.1.2 (none, .void)).1)) ∧
+      setupTerminals { guards := true } strong cols = .ok (syms.filterMap TermSym.var?) := by
+  have hlt : ¬ cols.length < 2 := by omega
+  refine ⟨_, ?_, rfl, ?_⟩
+  · simp only [setupSymbols, hlt, if_false]
+    exact setupSymsGo_spec _ cols.tail 1 0 hst
+  · simp only [setupTerminals, hlt, if_false, pure, Except.pure]
+    rw [setupVarsGo_spec, flatMap_var?]
+    intro a s hs
+    simp only [List.mem_map] at hs
+    obtain ⟨_, _, rfl⟩ := hs
+    rfl
+
+/-- **terminals_of_read.**  `terminals_spec` applies to every dataframe the two readers return, for
+    every input and every parameter setting: the columns they build carry states only when their
+    domain is `d_string` (so `setup_terminals` never meets a state it cannot turn into a constant). -/
+theorem terminals_of_read (cfg : Cfg) (o : NumOracle F) :
+    (∀ (p : Params) (bytes : Str) (df : DF F), readCsv cfg o p bytes = .ok df → StatesStr df.cols.tail) ∧
+    (∀ (hook : Hook) (doc : XDoc) (df : DF F) (n : Nat), readXrffH cfg o hook doc = .ok (df, n) →
+        StatesStr df.cols.tail) := by
+  constructor
+  · intro p bytes df h c hc
+    exact readCsv_statesStr cfg o p bytes df h c (List.mem_of_mem_tail hc)
+  · intro hook doc df n h c hc
+    exact readXrffH_statesStr cfg o hook doc df n h c (List.mem_of_mem_tail hc)
+
+/-- **var_typed.**  After the fix, on an example `to_example` built for the same columns: there is one
+    variable per column with a domain; variable `j` is named after the `j`-th such column, is in the
+    category of that column, reads input `j`, and what it reads is a value of that column's domain –
+    the domain `category_set` records for the category (numbers for numeric columns, texts for string
+    columns; never a value of another column's type). -/
+theorem var_typed (o : NumOracle F) (strong : Bool) (cols : List Col) (vars : List VarSym) (xs : List Str)
+    (e : Example F) (h : setupTerminals { guards := true } strong cols = .ok vars)
+    (hin : InputsOK o (cols.tail.map (·.dom)) xs) (he : e.input = inputVals o (cols.tail.map (·.dom)) xs) :
+    vars.length = (keptCols cols.tail 1).length ∧
+    ∀ j (hj : j < vars.length) (hk : j < (keptCols cols.tail 1).length),
+      vars[j].name = varName (keptCols cols.tail 1)[j].1 (keptCols cols.tail 1)[j].2 ∧
+      vars[j].var = j ∧
+      vars[j].category = ((categories strong cols).getD (keptCols cols.tail 1)[j].2 (none, .void)).1 ∧
+      ((categories strong cols).getD (keptCols cols.tail 1)[j].2 (none, .void)).2 = (keptCols cols.tail 1)[j].1.dom ∧
+      ∃ x, evalVar vars[j] e = .ok x ∧ x.dom = (keptCols cols.tail 1)[j].1.dom := by
+  unfold setupTerminals at h
+  split at h
+  · cases h
+  · simp only [pure, Except.pure, Except.ok.injEq] at h
+    subst h
+    rw [setupVarsGo_spec]
+    have hd := inputVals_doms o cols.tail xs 1 hin
+    rw [← he] at hd
+    have hlen : e.input.length = (keptCols cols.tail 1).length := by
+      have := congrArg List.length hd
+      simpa using this
+    refine ⟨by simp, ?_⟩
+    intro j hj hk
+    simp only [List.getElem_map, List.getElem_zipIdx, Nat.zero_add]
+    have hje : j < e.input.length := by omega
+    refine ⟨trivial, trivial, trivial, ?_, e.input[j], ?_, ?_⟩
+    · -- the domain recorded for the column in the category set is the column's
+      have hmem : (keptCols cols.tail 1)[j] ∈ cols.tail.zipIdx 1 :=
+        (List.mem_filter.1 (List.getElem_mem hk)).1
+      generalize (keptCols cols.tail 1)[j] = p at hmem ⊢
+      obtain ⟨c, i⟩ := p
+      obtain ⟨hi, hi2, hc⟩ := List.mem_zipIdx hmem
+      have hcols : cols[i]? = some c := by
+        cases cols with
+        | nil => simp at hi2; omega
+        | cons c0 cs =>
+          simp only [List.tail_cons] at hc hi2
+          have : i = (i - 1) + 1 := by omega
+          rw [this, List.getElem?_cons_succ, hc, List.getElem?_eq_getElem]
+      have hmap := (category_valid strong cols).1
+      have : ((categories strong cols).map (·.2))[i]? = some c.dom := by
+        rw [hmap, List.getElem?_map, hcols]; rfl
+      rw [List.getElem?_map] at this
+      cases hg : (categories strong cols)[i]? with
+      | none => simp [hg] at this
+      | some y =>
+        simp only [hg, Option.map_some, Option.some.injEq] at this
+        simp [List.getD, hg, this]
+    · simp [evalVar, fetchVar, List.getElem?_eq_getElem hje, pure, Except.pure]
+    · have := congrArg (fun l => l[j]?) hd
+      simp only [List.getElem?_map, List.getElem?_eq_getElem hje, List.getElem?_eq_getElem hk,
+        Option.map_some, Option.some.injEq] at this
+      exact this
 
 /-! ## 5. sniffer -/
 
@@ -638,6 +833,44 @@ example : Typed digitOracle (some 0) false false toyTable where
     right
     simp [Table.rows, toyTable, fieldsOf, fieldOut, fieldSeen, prep, rot, kinds, kindOf, Classif, outDom, specRows, outVal, encode, lookup,
       isNumber, trim, isBlank, isSpace, digitOracle]
+
+/-- the hypotheses of `hook_absent` / `filter_absent` can be met: `toyTable` read with the filter that
+    rejects the records whose first field is `c` is `name,n / "a,b",1` read without a filter -/
+example : readCsv {} digitOracle { delim := ',', header := some true, hook := Hook.ofPred (fun r => r.head? != some ['c']) }
+      (toyTable.render ',' []) =
+    readCsv {} digitOracle { delim := ',', header := some true, hook := some }
+      (renderFile [] ([[("name".toList, false), ("n".toList, false)], [("a,b".toList, true), ("1".toList, false)]].map
+        (renderLine ','))) :=
+  filter_absent {} digitOracle ',' [] toyTable { delim := ',', header := some true }
+    (fun r => r.head? != some ['c']) _ rfl rfl
+    { d0 := by decide, dq := by decide, dn := by decide, eol_ok := Or.inl rfl
+      rect := by intro l hl; simp [Table.lines, Table.rows, toyTable] at hl; rcases hl with rfl | rfl | rfl <;> rfl
+      width := by simp [toyTable]
+      clean := by
+        intro l hl p hp
+        simp [Table.lines, Table.rows, toyTable] at hl
+        rcases hl with rfl | rfl | rfl <;> simp at hp <;> rcases hp with rfl | rfl <;>
+          (refine ⟨?_, ?_⟩ <;> simp [Clean, needsQuote, isSpace] <;> decide)
+      visible := by
+        intro l hl
+        simp [Table.lines, Table.rows, toyTable] at hl
+        rcases hl with rfl | rfl | rfl <;> simp [renderLine, renderField, esc, isBlank, isSpace] }
+    (by simp [Table.lines, Table.rows, toyTable, fieldsOf, fieldOut, fieldSeen]; decide)
+
+/-- columns `y` (numeric output), `a` (numeric), `s` (text with the states `F`, `M`): the hypotheses
+    of `terminals_spec` and `var_typed` are met (record `7, 1, M`) -/
+def toyCols : List Col :=
+  [{ name := ['y'], dom := .dbl }, { name := ['a'], dom := .dbl }, { name := ['s'], dom := .str, states := [['F'], ['M']] }]
+
+example : StatesStr toyCols.tail ∧ 2 ≤ toyCols.length := by
+  constructor
+  · intro c hc; simp [toyCols] at hc; rcases hc with rfl | rfl <;> simp
+  · simp [toyCols]
+
+example : ∃ vars : List VarSym, setupTerminals { guards := true } false toyCols = .ok vars ∧
+    InputsOK digitOracle (toyCols.tail.map (·.dom)) [['1'], ['M']] := by
+  refine ⟨_, rfl, ?_⟩
+  simp [toyCols, InputsOK, CellOK, digitOracle, trim, isSpace]
 
 /-- `x,y / 1,2 / 3,4` is an unambiguous table -/
 example : Unambiguous digitOracle ',' (some ["x".toList, "y".toList])
